@@ -60,6 +60,8 @@ type Ctx struct {
 	spill   map[*ssa.Alloc]string
 	canon   map[ssa.Value]string // reference-tree names of renamed variables (canon.go)
 	canonSt canonStats
+	norm    *normReport // helper functions inlined before analysis (normalize.go)
+	refFns  map[string]bool // functions of the reference tree (refnames.json)
 }
 
 func shortPkg(path string) string {
@@ -99,8 +101,31 @@ func load(repo, tier string) (*Ctx, error) {
 	if err != nil {
 		return nil, err
 	}
+	// helper functions the reference tree does not have are inlined back into their callers (normalize.go)
+	var norm *normReport
+	if hasErrors(pkgs) == "" && os.Getenv("VERIF_NO_NORMALIZE") == "" {
+		ref := map[string]refFn{}
+		_ = json.Unmarshal(refnamesJSON, &ref)
+		norm = normalizeNewHelpers(repo, pkgs, ref)
+		if d := os.Getenv("VERIF_DUMP_NORM"); d != "" {
+			for name, b := range norm.Overlay {
+				os.MkdirAll(d, 0o755)
+				os.WriteFile(filepath.Join(d, strings.ReplaceAll(strings.TrimPrefix(name, repo+"/"), "/", "__")), b, 0o644)
+			}
+		}
+		if len(norm.Overlay) > 0 {
+			cfg.Overlay = norm.Overlay
+			p2, err2 := packages.Load(cfg, "./...")
+			if err2 == nil && hasErrors(p2) == "" {
+				pkgs = p2
+			} else {
+				norm.Failed = append(norm.Failed, "reload with the normalised sources failed; analysing the sources as written")
+				norm.Abandoned = true
+			}
+		}
+	}
 	c := &Ctx{Repo: repo, Tier: tier, Pkgs: map[string]*packages.Package{}, SSA: map[string]*ssa.Package{},
-		floors: map[string][2]int{}, fnsSeen: map[*ssa.Function]bool{}, spill: map[*ssa.Alloc]string{}}
+		floors: map[string][2]int{}, fnsSeen: map[*ssa.Function]bool{}, spill: map[*ssa.Alloc]string{}, norm: norm}
 	nmod := 0
 	var errs []string
 	for _, p := range pkgs {
@@ -151,6 +176,14 @@ func load(repo, tier string) (*Ctx, error) {
 	}
 	sort.Slice(c.ModFns, func(i, j int) bool { return c.ModFns[i].String() < c.ModFns[j].String() })
 	c.canon, c.canonSt = buildCanon(c)
+	{
+		ref := map[string]refFn{}
+		_ = json.Unmarshal(refnamesJSON, &ref)
+		c.refFns = map[string]bool{}
+		for k := range ref {
+			c.refFns[k] = true
+		}
+	}
 	c.cg = buildCallGraph(c)
 	return c, nil
 }
@@ -283,6 +316,11 @@ func (c *Ctx) pos(p token.Pos) string {
 	rel, err := filepath.Rel(c.Repo, ps.Filename)
 	if err != nil {
 		rel = ps.Filename
+	}
+	if c.norm != nil {
+		if _, changed := c.norm.Overlay[ps.Filename]; changed {
+			return fmt.Sprintf("%s:~%d(after inlining)", rel, ps.Line)
+		}
 	}
 	return fmt.Sprintf("%s:%d", rel, ps.Line)
 }
@@ -462,6 +500,27 @@ func (c *Ctx) finish(p *Prop, kf *knownFile, evPath string, seed int, start time
 	}
 	for k, v := range extra {
 		cov[k] = v
+	}
+	cov["source_normalisation"] = map[string]interface{}{
+		"variables_mapped_to_reference_names": c.canonSt.renamedValues,
+		"variables_left_unaligned":            c.canonSt.unaligned,
+	}
+	if c.norm != nil && len(c.norm.NewFuncs) > 0 {
+		cov["source_normalisation"] = map[string]interface{}{
+			"variables_mapped_to_reference_names": c.canonSt.renamedValues,
+			"variables_left_unaligned":            c.canonSt.unaligned,
+			"functions_not_in_reference_tree":     c.norm.NewFuncs,
+			"calls_inlined":                       c.norm.Inlined,
+			"declarations_dropped":                c.norm.Dropped,
+			"inlined_as_function_literal":         c.norm.Literal,
+			"failures":                            c.norm.Failed,
+			"abandoned":                           c.norm.Abandoned,
+		}
+		fmt.Printf("NOTE: %d function(s) not present in the reference tree; %d call(s) inlined before analysis (%s); positions marked ~ refer to the inlined text\n",
+			len(c.norm.NewFuncs), len(c.norm.Inlined), strings.Join(c.norm.NewFuncs, ", "))
+		for _, f := range c.norm.Failed {
+			fmt.Printf("NOTE: normalisation: %s\n", f)
+		}
 	}
 	ev := evidence{PropertyID: p.ID, Tier: c.Tier, Seed: seed, Level: "other", Coverage: cov,
 		Assumptions: append([]string{
